@@ -111,9 +111,6 @@ Section Fresh.
     rewrite E. apply IH. intros; apply H; now right.
   Qed.
 
-  Lemma fresh_filter seen cands (p : A -> bool) :
-    (forall c, In c cands -> p c = false -> In (key c) seen -> False) -> True.
-  Proof. trivial. Qed.
 End Fresh.
 
 (* with the identity key the fresh items themselves are duplicate-free *)
